@@ -67,7 +67,10 @@ def malformed_docs(gc, rng, n):
         d = base()
         kind = i % 14
         if kind == 0:
-            d["action_type"] = rng.choice(["Foo", "ActionType.Foo", "", "scannetwork", "ActionType.", "ActionType.ActionType.ScanNetwork"])
+            d["action_type"] = rng.choice(["Foo", "ActionType.Foo", "", "scannetwork", "ActionType.", "ActionType.ActionType.ScanNetwork",
+                                            # the prefix once more after (or inside) a supported name: still no supported name
+                                            "ActionType.QuitGameActionType.", "ActionType.ScanNetworkActionType.x", "ScanActionType.Network",
+                                            "ActionType.FindDataActionType.FindData", "QuitGameActionType."])
         elif kind == 1:
             d["parameters"][rng.choice(["foo", "src_host", "", "target"])] = {"ip": "1.1.1.1"}
         elif kind == 2:
@@ -158,6 +161,53 @@ def mutate(gc, a, rng):
 TRICKY = ["EOF", "xEOFy", "GEOFF", "EOFEOF", 'a"b', "a\\b", "}{", "  padded  ", "\u00e9\u4e2d", "tab\tnew\nline", "ActionType.QuitGame", "null", "{\"ip\": 1}", "'", "%s"]
 
 
+PICKLE_WORKER = r"""
+import base64, json, pickle, sys
+sys.path[:0] = sys.argv[1:3]
+import AIDojoCoordinator.game_components as gc
+ip = gc.IP
+acts = [gc.Action(gc.ActionType.ScanNetwork, {"source_host": ip("192.168.1.2"), "target_network": gc.Network("192.168.1.0", 24)}),
+        gc.Action(gc.ActionType.FindServices, {"source_host": ip("192.168.1.2"), "target_host": ip("192.168.1.3")}),
+        gc.Action(gc.ActionType.FindData, {"target_host": ip("192.168.1.3"), "source_host": ip("192.168.1.2")}),
+        gc.Action(gc.ActionType.ExploitService, {"source_host": ip("192.168.1.2"), "target_host": ip("192.168.1.3"), "target_service": gc.Service("ssh", "passive", "8.1", False)}),
+        gc.Action(gc.ActionType.ExfiltrateData, {"source_host": ip("192.168.1.3"), "target_host": ip("192.168.1.2"), "data": gc.Data("User1", "DataFromServer1")}),
+        gc.Action(gc.ActionType.BlockIP, {"source_host": ip("192.168.1.2"), "target_host": ip("192.168.1.2"), "blocked_host": ip("1.1.1.1")}),
+        gc.Action(gc.ActionType.JoinGame, {"agent_info": gc.AgentInfo("x", "Attacker")}),
+        gc.Action(gc.ActionType.ResetGame, {"request_trajectory": True}),
+        gc.Action(gc.ActionType.QuitGame, {})]
+table = {a: i for i, a in enumerate(acts)}          # every action has been hashed: used as a key
+print(json.dumps({"pickle": base64.b64encode(pickle.dumps(table)).decode(), "json": [a.to_json() for a in acts]}))
+"""
+
+
+def pickle_probe(ctx):
+    """Equal actions hash equally - also when one of them has been used as a dictionary key, pickled and loaded by ANOTHER interpreter
+    (string hashes differ between interpreters): a table of actions stored by one process must be found under the actions decoded
+    from their JSON in another."""
+    import base64
+    import pickle
+    import subprocess
+    gc = _impl()
+    env = dict(os.environ, PYTHONHASHSEED="12345")
+    r = subprocess.run([sys.executable, "-c", PICKLE_WORKER, os.path.join(CK.HARNESS, "pyshim"), CK.REPO], capture_output=True, text=True, env=env, timeout=120)
+    try:
+        doc = json.loads(r.stdout.strip().split("\n")[-1])
+        table = pickle.loads(base64.b64decode(doc["pickle"]))
+    except Exception as e:
+        ctx.stage_errors.append(("pickle probe", f"{type(e).__name__}: {e}; stderr {r.stderr[-300:]}"))
+        return
+    n = 0
+    for k, text in enumerate(doc["json"]):
+        a = gc.Action.from_json(text)
+        loaded = [x for x in table if x == a]
+        n += 1
+        if len(loaded) != 1 or hash(loaded[0]) != hash(a) or table.get(a) != k:
+            ctx.violations.append({"key": "equal actions hash differently across interpreters",
+                                   "what": f"an action stored as a dictionary key by another interpreter and the action decoded from its JSON here are equal ({len(loaded)} equal key(s)) but hash {'differently' if loaded and hash(loaded[0]) != hash(a) else 'the same'}; looking the decoded action up in the loaded table gives {table.get(a)!r} instead of {k}: {text[:160]}",
+                                   "replay": {"kind": "pickle_probe", "action": text}})
+    ctx.coverage["pickle_probe"] = {"actions": n}
+
+
 def wire_probe(ctx):
     """The wire as the coordinator implements it: actions with awkward (but legal) text fields are sent as Action.to_json() to
     the real AgentServer / dispatcher; the action that reaches the game (the one recorded in the trajectory handed out with
@@ -199,7 +249,8 @@ def wire_probe(ctx):
                                            "replay": {"kind": "wire_probe", "text": t}})
                 else:
                     sent.append(act)
-        for bogus in ("ActionType.FindEOFData", "EOFActionType.FindData", "ActionType.FindDataEOF", "ActionType.EOF"):
+        for bogus in ("ActionType.FindEOFData", "EOFActionType.FindData", "ActionType.FindDataEOF", "ActionType.EOF",
+                      "ActionType.FindDataActionType.", "ActionType.FindDataActionType.FindData", "FindActionType.Data"):
             d.send(a, json.dumps({"action_type": bogus, "parameters": {"source_host": {"ip": "192.168.2.2"}, "target_host": {"ip": "192.168.2.2"}}})); d.settle()
             out = d.new_output(a)
             stats["unsupported_types_sent"] += 1
@@ -286,6 +337,7 @@ def wire_probe(ctx):
 def correspondence(ctx):
     gc = _impl()
     wire_probe(ctx)
+    pickle_probe(ctx)
     rng = random.Random(ctx.seed)
     thorough = ctx.tier == "thorough"
     actions = gen_actions(gc, rng, 4 if thorough else 1)
@@ -406,6 +458,14 @@ def replay(ctx, payload):
     if k == "wire_probe":
         c2 = CK.Ctx("C14", "quick", getattr(ctx, "seed", 1))
         wire_probe(c2)
+        for v in c2.violations:
+            print(v["what"])
+        if c2.violations:
+            print("VIOLATION property=C14 replay=(this file)")
+        return 1 if c2.violations else 0
+    if k == "pickle_probe":
+        c2 = CK.Ctx("C14", "quick", getattr(ctx, "seed", 1))
+        pickle_probe(c2)
         for v in c2.violations:
             print(v["what"])
         if c2.violations:
